@@ -18,11 +18,11 @@ if echo "$SUITE" | grep -q "^FAIL\|^---\|panic:"; then echo "RESULT suite-fails-
 # top-level TestSuite: compare failing set with baseline (5 sha512 programs)
 TOP=$(go test -vet=off -count=1 -run TestSuite . 2>&1 | grep -c "^        --- FAIL\|--- FAIL: TestSuite/" )
 cp "$SD/$DEMO" "$PKG/zz_seed_demo_test.go"
-go test -vet=off -count=1 -run "$RUN" "./$PKG/" > /tmp/confirm_with.log 2>&1; WITH=$?
+go test -vet=off -count=1 -run "$RUN" "./$PKG/" > /tmp/confirm_with.$$.log 2>&1; WITH=$?
 git apply -R "$SD/patch.diff"
-go test -vet=off -count=1 -run "$RUN" "./$PKG/" > /tmp/confirm_without.log 2>&1; WITHOUT=$?
+go test -vet=off -count=1 -run "$RUN" "./$PKG/" > /tmp/confirm_without.$$.log 2>&1; WITHOUT=$?
 echo "suite_ok_with_change=$SUITEOK demo_exit_with_change=$WITH demo_exit_without_change=$WITHOUT"
-tail -3 /tmp/confirm_with.log
-tail -2 /tmp/confirm_without.log
+tail -3 /tmp/confirm_with.$$.log
+tail -2 /tmp/confirm_without.$$.log
 if [ $SUITEOK = 1 ] && [ $WITH != 0 ] && [ $WITHOUT = 0 ]; then echo "RESULT confirmed"; exit 0; fi
 echo "RESULT not-confirmed"; exit 1
